@@ -17,6 +17,16 @@ static uint8_t *keybuf; static size_t keycap = 1u << 20;
 uint64_t *e1_outhash; uint64_t e1_outhash_n; static uint64_t outhash_cap;
 extern int vf_suppress;
 
+static vf_snap *take_snap(void) {
+    if (C->state_size) {
+        vf_snap *s = malloc(sizeof *s + C->state_size);
+        if (!s) vf_harness_error("out of memory (states)");
+        s->size = (uint32_t)C->state_size; C->save(s->data); return s;
+    }
+    return vf_snapshot(C->model, C->model_size);
+}
+static void put_snap(const vf_snap *s) { if (C->state_size) C->restore(s->data); else vf_restore(s, C->model, C->model_size); }
+
 static int tab_insert(uint64_t h1, uint64_t h2) {          /* 1 if new */
     if (h1 == 0 && h2 == 0) h2 = 1;
     if ((usedT + 1) * 10 > capT * 7) {
@@ -122,7 +132,7 @@ static void generic_checks(void) {
 static void push_state(uint64_t parent, int ev, uint32_t depth, uint64_t h1) {
     if (nS == capS) { capS = capS ? capS * 2 : 4096; S = realloc(S, capS * sizeof *S); if (!S) vf_harness_error("out of memory (states)"); }
     S[nS].parent = (uint32_t)parent; S[nS].ev = ev; S[nS].depth = depth; S[nS].h1 = h1;
-    S[nS].snap = vf_snapshot(C->model, C->model_size);
+    S[nS].snap = take_snap();
     nS++;
 }
 
@@ -165,7 +175,7 @@ void e1_run(const e1_cfg *c, e1_stats *out) {
             if (vf_violation_events && now - vf_first_violation_t > VF_GRACE_AFTER_VIOLATION_S) { out->fixpoint = 0; out->cap = "stopped-after-violation"; break; }
         }
         for (int ev = 0; ev < c->nev; ev++) {
-            vf_restore(S[si].snap, c->model, c->model_size);
+            put_snap(S[si].snap);
             if (c->enabled && !c->enabled(ev)) continue;
             cur_state = si; cur_ev = ev;
             vf_trace_clear();
